@@ -70,6 +70,7 @@ def run_variant(src, hier, contract, method, variant, both=False, repo_qual=None
     res = VariantResult(qual, variant.name, variant.props)
     AX.reset()
     smt.FOLDS.reset()
+    smt.reset_cli_budget()
     for h in views.RESET_HOOKS:
         h()
     try:
